@@ -768,4 +768,19 @@ def _write_back(parsed_ast, filename):
     :type filename: ```str```
     \"\"\"
     emit.file(parsed_ast, filename, mode="wt", skip_black=False)""")]),
+    dict(id="coord-lstrip-before-measuring", kind=B, props=["C17"], expect="COORD", edits=[("defaults_utils.py",
+         """    sub_l = line[_end_idx:]
+""", """    sub_l = line[_end_idx:].lstrip()
+""")]),
+    dict(id="coord-strip-after-measuring", kind=N, props=["C17"], expect="silent", edits=[("defaults_utils.py",
+         """    rest_offset = _end_idx + len(default)
+""", """    rest_offset = _end_idx + len(default)
+    default = default.strip()
+""")]),
+    dict(id="coord-find-on-casefolded-copy", kind=B, props=["C17"], expect="COORD", edits=[("defaults_utils.py",
+         """    rest_offset = _end_idx + len(default)
+""", """    rest_offset = _end_idx + len(default)
+    if line.casefold().find("default is") > -1:
+        line = line[: line.casefold().replace("  ", " ").find("default is")]
+""")]),
 ]
